@@ -107,6 +107,8 @@ def run(ctx, model: Model):
                     ctx.violation("R-GUARD", init.relpath, f"{cname}.__init__", "arity check",
                                   f"{cname} without an assertion pattern must raise NotEnoughArgumentsException", init.node.lineno,
                                   inp=inp, detail=o.describe())
+    # ---------------- R-TOTAL (class algebra): unions / subtractions of valid classes fail only with library exceptions
+    _sweep_class_algebra(ctx, model, exc_classes)
     # ---------------- R-TOTAL (meta)
     _sweep_meta(ctx, model, exc_classes)
     # ---------------- R-EXPORT
@@ -492,6 +494,39 @@ def _sweep_core(ctx, model, exc_classes):
                                       "returns a pattern that re rejects when it is first used", f.node.lineno, inp=inp,
                                       detail=f"{o.text!r}: {why}")
     ctx.extra["core_sweep_cases"] = n_cases
+
+
+def _sweep_class_algebra(ctx, model, exc_classes):
+    """A | B and A - B over every pair of subsets (every spelling) of two small alphabets, one of them around the
+    hyphen; the set-algebra result itself is C07's business, here only the kind of failure is judged."""
+    import itertools
+    from . import c07
+    W, _, _, _ = c07.tables(model)
+    CLS = "pregex.core.classes"
+    fns = {"|": model.method(CLS, "__Class", "__or"), "-": model.method(CLS, "__Class", "__sub")}
+    jobs = []
+    for alpha in ("+,-.", "ab^]") if ctx.tier == "quick" else ("+,-./", "abc^]", "\\[]-"):
+        lst = c07.forms(alpha, W, False)
+        for (ma, ta), (mb, tb) in itertools.product(lst, lst):
+            for op in ("|", "-"):
+                jobs.append((alpha, False, "".join(sorted(ma)), ta, "".join(sorted(mb)), tb, op, 0))
+    res = c07._parallel(ctx, model, sorted(W), jobs)
+    n = 0
+    for (alpha, neg, ma, ta, mb, tb, op, order), (kind, payload) in zip(jobs, res):
+        n += 1
+        inp = f"{ta} {op} {tb}"
+        ctx.instance("R-TOTAL", key=("class algebra", inp), sample=f"{inp} -> {kind} {payload[0] if kind == 'raise' else ''}")
+        f = fns[op]
+        if kind == "incomplete" and "fuel exhausted" in payload:
+            ctx.violation("R-TOTAL", f.relpath, f.short, "termination", "class algebra does not terminate within the step budget",
+                          f.node.lineno, inp=c07._shape(frozenset(ma), frozenset(mb), alpha, op), detail=inp)
+        elif kind == "incomplete":
+            raise AnalysisError(f"R-TOTAL class algebra: {inp}: {payload}")
+        elif kind == "raise" and payload[0] not in exc_classes:
+            ctx.violation("R-TOTAL", f.relpath, f.short, payload[1] or "<raise>",
+                          f"class {'union' if op == '|' else 'subtraction'} of valid classes fails with the unrelated error {payload[0]}",
+                          f.node.lineno, inp=c07._shape(frozenset(ma), frozenset(mb), alpha, op), detail=inp)
+    ctx.floor("R-TOTAL", n, 800, "class-algebra pairs")
 
 
 def _doc_exempt(label, exc):
